@@ -156,6 +156,25 @@ func (C04) execute(p *Plan, r *simkit.Run) *simkit.Violation {
 				return
 			}
 		}
+		// (v) a session never outlives the health checks it is bound to: each of them exists on the session's
+		// node and is not critical (otherwise the entry that deleted the check / made it critical had to end the session)
+		for _, id := range simkit.SortedKeys(now.sessions) {
+			sess := now.sessions[id]
+			for _, cid := range sess.CheckIDs() {
+				_, hc, err := c.L.State().NodeCheck(sess.Node, cid, nil, "")
+				if err != nil {
+					panic(err)
+				}
+				if hc == nil {
+					viol = mk("dangling-link", "session-ends-with-its-checks", fmt.Sprintf("after entry %d (%s): session %s is bound to check %q on node %q, which does not exist", e.Index, e.Desc, tail8(id), cid, sess.Node))
+					return
+				}
+				if hc.Status == "critical" {
+					viol = mk("dangling-link", "session-ends-with-its-checks", fmt.Sprintf("after entry %d (%s): session %s is still alive although its check %q on node %q is critical", e.Index, e.Desc, tail8(id), cid, sess.Node))
+					return
+				}
+			}
+		}
 		// (iv) a session that ended in this entry has released or deleted its keys in this entry
 		for _, id := range simkit.SortedKeys(prev.sessions) {
 			if now.sessions[id] != nil {
